@@ -75,6 +75,10 @@ pub enum SelectReply {
     /// the service answers with its own rendering of candidate `index` (another textual form of the
     /// same address, metadata in another order) or with a malformed copy of it
     Scripted { index: usize, target: TargetSpec },
+    /// like `EchoReceived`, but the service takes this long to answer (a busy matchmaker)
+    Slow { index: usize, delay_ms: u64 },
+    /// the service fails the call with this gRPC status code
+    Status { code: String },
 }
 
 #[derive(Clone, Debug, Serialize, Deserialize)]
@@ -154,6 +158,8 @@ pub fn class_key(case: &Case) -> Option<String> {
                     target.form,
                     target.malformed.as_deref().unwrap_or("wellformed")
                 ),
+                SelectReply::Slow { index, .. } => format!("slow-echo-{}", if *index == 0 { "first" } else { "later" }),
+                SelectReply::Status { code } => format!("status-{code}"),
             };
             ("select", candidates, format!("|reply={r}|client={client_family}|proto={}", if *protocol < 0 { "neg" } else { "nonneg" }))
         }
@@ -200,6 +206,8 @@ pub fn counters(case: &Case) -> Vec<(&'static str, u64)> {
                 SelectReply::None => v.push(("select() calls answered with no target", 1)),
                 SelectReply::EchoReceived { .. } => v.push(("select() calls answered with a received candidate verbatim", 1)),
                 SelectReply::Scripted { .. } => v.push(("select() calls answered with a scripted rendering of a candidate", 1)),
+                SelectReply::Slow { .. } => v.push(("select() calls answered after 2.5 s", 1)),
+                SelectReply::Status { .. } => v.push(("select() calls failed by the service with a gRPC status", 1)),
             }
         }
     }
@@ -463,7 +471,11 @@ fn gen_target(rng: &mut Rng, v6: bool, unique: usize) -> TargetSpec {
 }
 
 /// Hosts that denote no IP address in any textual form (and are no plausible host name either).
-const BAD_HOSTS: [&str; 16] = [
+const BAD_HOSTS: [&str; 20] = [
+    "fe80::1%eth0",
+    "fe80::1%3",
+    "10.0.0.2%lobby",
+    "%",
     "",
     " ",
     "not an address",
@@ -668,6 +680,9 @@ fn gen_select(rng: &mut Rng) -> Case {
         // the first candidate is deliberately not the usual choice
         let index = if len == 1 || rng.chance(1, 6) { 0 } else { 1 + rng.usize_below(len - 1) };
         match rng.below(10) {
+            // a service that is in trouble says so; its trouble is not a choice
+            _ if rng.chance(1, 25) => SelectReply::Status { code: (*rng.pick(&["cancelled", "deadline_exceeded", "unavailable", "internal", "resource_exhausted", "aborted"])).to_string() },
+            _ if rng.chance(1, 150) && len >= 2 => SelectReply::Slow { index: len - 1, delay_ms: 2500 },
             0 | 1 => SelectReply::None,
             2..=4 => SelectReply::EchoReceived { index },
             5..=7 => SelectReply::Scripted { index, target: rerender(rng, &candidates[index]) },
